@@ -1,0 +1,7 @@
+//go:build !verif
+
+package nodis
+
+// verifPoint marks a point of interest for the verification harness; without the verif build tag
+// it does nothing.
+func verifPoint(id string) {}
